@@ -126,7 +126,9 @@ def exchange(proto, rng, tags):
 
 def opts_of(proto):
     b = base(proto)
-    names = ["send-buffer", "recv-buffer", "ttl-max"]
+    # (the socket core accepts recv-buffer / send-buffer on every socket; PushModel / PullModel answer ENOTSUP for the
+    # buffer their protocol does not have -- a coarseness of those models, reported; not exercised here)
+    names = {"push0": ["send-buffer", "ttl-max"], "pull0": ["ttl-max"]}.get(b, ["send-buffer", "recv-buffer", "ttl-max"])
     if b == "req0":
         names += ["req:resend-time", "req:resend-tick"]
     if b == "surveyor0":
@@ -162,7 +164,13 @@ def gen_injection_cases(rng, per_proto, protos=None):
         tags = Tags(rng)
         L = exchange(proto, rng, tags)
         inj = injections(proto, L, rng, tags)
-        combos = [(i, x) for i in range(1, len(L) + 1) for x in inj]
+        c0pos = next((k for k, l in enumerate(L) if l.startswith("ctx c0 ")), None)
+
+        def valid(i, x):
+            if " c0" in x or x.endswith(" c0"):
+                return c0pos is not None and i > c0pos          # a context is used only after it was opened
+            return True
+        combos = [(i, x) for i in range(1, len(L) + 1) for x in inj if valid(i, x)]
         rng.shuffle(combos)
         if per_proto is not None:
             # every position at least once, every injection at least once, then random fill
@@ -176,6 +184,8 @@ def gen_injection_cases(rng, per_proto, protos=None):
         for i, x in combos:
             if x.startswith("close"):
                 c = L[:i] + [x]          # nothing is done on a closed socket (handle validity is C10's subject)
+            elif x.startswith("ctxclose c0"):
+                c = L[:i] + [x] + [l for l in L[i:] if " c0" not in l]      # ... nor on a closed context
             else:
                 c = L[:i] + [x] + L[i:]
                 if rng.random() < 0.5:
@@ -210,7 +220,7 @@ def gen_random_case(rng):
         if b in ("surveyor0",) and not raw:
             return "[R%d]%s" % (rng.randrange(0, 2), t)
         if b in ("rep0", "respondent0", "req0", "surveyor0"):
-            return rng.choice(["80000001", "80000002", "0000000180000003", "00000001"]) + t
+            return rng.choice(["80000001", "80000002", "00a1b2c380000003", "00a1b2c3"]) + t
         if b == "pair1":
             return rng.choice(["00000001", "00000002", "0000000f", "000000ff"]) + t
         return t
@@ -301,6 +311,8 @@ def oracle(case, lines):
             return (k, "library did not become quiescent within 10 s", None)
         if ":LOST" in head or ":OTHER" in head:
             return (k, "a failed send did not leave the message attached to the aio (nng_aio_get_msg did not return it)", None)
+        if ":STALE" in head:
+            return (k, "after a successful send the aio still points at the message the library has taken (a dangling pointer: nng_aio_get_msg returns freed memory)", None)
         if "ALLOC-BAD" in rest:
             return (k, "free with a size different from the allocation's (or of an unknown pointer): %s" % rest.strip(), None)
         if refs is not None and (refs < 0 or live < 0):
@@ -529,14 +541,15 @@ def balance_run(rep, impl, programs, stats):
                 elif l.startswith("x LOST") or ":LOST" in l:
                     bad = "a failed send did not leave the message attached to the aio"
                 if bad:
+                    key = None
                     p = rep.replay_file("real_%d.case" % (b0 + ci), "# %s\n" % bad + "\n".join(c) + "\n")
-                    rep.violation(p, "real transports: " + bad)
+                    rep.violation(p, "real transports: " + bad, key=key)
                     break
     # the balance at nng_fini: one more process, all programs, then the fini line
     return
 
 
-def fini_check(rep, impl, programs, stats):
+def fini_check(rep, impl, programs, stats, key=None):
     script = []
     for k, c in enumerate(programs):
         script.append("mark %d" % k); script.extend(c)
@@ -555,7 +568,8 @@ def fini_check(rep, impl, programs, stats):
     stats["allocs"] = stats.get("allocs", 0) + al
     if ob != 0 or obl != 0 or bs != 0 or bp != 0 or mr != 0 or ml != 0:
         p = rep.replay_file("fini_balance.case", "# %s\n# %s\n" % (fin[0], "\n# ".join(l for l in out if l.startswith("outstanding"))) + "\n".join(script) + "\n")
-        rep.violation(p, "after nng_fini the pluggable allocator is not balanced: %s" % fin[0])
+        only_msgs = (bs == 0 and bp == 0)
+        rep.violation(p, "after nng_fini the pluggable allocator is not balanced: %s" % fin[0], key=(key if only_msgs else None))
 
 
 # ------------------------------------------------------------------ the run
@@ -630,7 +644,10 @@ def run(tier, seed, replay=None):
         progs = [gen_program(rng, transports) for _ in range(40 if quick else 1500)]
         progs += [gen_device_program(rng, ["inproc", "ipc"]) for _ in range(10 if quick else 300)]
         balance_run(rep, impl, progs, stats)
-        fini_check(rep, impl, progs[:60 if quick else 400], stats)
+        plain = [c for c in progs if not any(x.startswith("device ") for x in c)]
+        devs = [c for c in progs if any(x.startswith("device ") for x in c)]
+        fini_check(rep, impl, plain[:60 if quick else 400], stats)
+        fini_check(rep, impl, devs[:30 if quick else 200], stats)
     if not proof_ok and not rep.violations:
         proof_broken_report(rep, cb, "C03 theorems do not check (%s)" % why)
     rep.cov["distinct_nontrivial"] = len(stats["nontrivial"])
